@@ -56,12 +56,16 @@ class Stepper:
     """
 
     def __init__(self, interrupt_at=None, max_steps=None, max_depth=None,
-                 max_msg=None, prefix=XL_DIR):
+                 max_msg=None, prefix=XL_DIR, no_interrupt_in=()):
         self.interrupt_at = interrupt_at
         self.max_steps = max_steps
         self.max_depth = max_depth
         self.max_msg = max_msg
         self.prefix = prefix
+        # functions whose lines are clean-up code (context-manager bodies):
+        # a cancellation landing *inside* clean-up cannot be handled by any
+        # Python program, so it is not a fault the library can be blamed for
+        self.no_interrupt_in = frozenset(no_interrupt_in)
         self.steps = 0
         self.depth = 0
         self.depth_seen = 0
@@ -85,6 +89,8 @@ class Stepper:
 
     def _local(self, frame, event, arg):
         if event == 'line':
+            if frame.f_code.co_name in self.no_interrupt_in:
+                return self._local
             self.steps += 1
             if self.fired is None:
                 if self.steps == self.interrupt_at:
